@@ -84,6 +84,11 @@ class Lane(LaneBase):
         head = failure.split(' and changed')[0]
         return 'C03:' + case['cls'] + ':' + head
 
+    def widen(self, case):
+        if 'ops' in case and isinstance(case.get('ops'), list) and case.get('kind', 'hist') == 'hist':
+            return histories.widen_history(case)
+        return []
+
     def shrink(self, case, still_fails):
         if case.get('kind') == 'exh':
             for op in case['ops']:
